@@ -263,6 +263,7 @@ def replay_edges(kind, inst, edges, first_id=1, last_only=True, procs=12):
 # ------------------------------------------------------------------------------------------------
 MAXJVM = 8          # concurrent trace-validation JVMs
 HEAP = "2g"
+MAXWEIGHT = 250000  # order records per trace file (about 25 MB of JSON)
 
 
 def tla_set(xs):
@@ -352,9 +353,19 @@ def validate(kind, traces, scratch, parts_total=14, timeout=1500, proj="acct"):
         cfgp = os.path.join(d, module + ".cfg")
         with open(cfgp, "w") as f:
             f.write(trace_cfg(kind, key, proj))
-        parts = max(1, min(len(ts), int(round(parts_total * len(ts) / total)) or 1))
+        # parts by weight (order records written): long in-vivo traces are few but big, and TLC's JSON reader needs
+        # memory in proportion to the file
+        wts = [sum(len(e["post"]["ord"]) + (0 if e.get("sp", True) else len(e["pre"]["ord"])) + 12 for e in t["ev"]) + 20 for t in ts]
+        parts = max(1, min(len(ts), max(int(round(parts_total * len(ts) / total)) or 1, -(-sum(wts) // MAXWEIGHT))))
+        bins = [[0, []] for _ in range(parts)]
+        for w, t in sorted(zip(wts, ts), key=lambda x: -x[0]):
+            bmin = min(bins, key=lambda x: x[0])
+            bmin[0] += w
+            bmin[1].append(t)
         for pi in range(parts):
-            ch = ts[pi::parts]
+            ch = bins[pi][1]
+            if not ch:
+                continue
             pd = os.path.join(d, "p%d" % pi)
             os.makedirs(pd, exist_ok=True)
             path = os.path.join(pd, "traces.json")
